@@ -6,6 +6,7 @@
    before and after every &self call (harness flag `ro`). Thread scheduling is not modelled: the
    "every interleaving" reading follows because a constant heap gives every reader the same answers. *)
 Require Import LruV.A.OrderA LruV.Gen.C19Static LruV.Gen.GenDefs.
+Require Import LruV.B.StepB LruV.B.OpsProps LruV.B.RefineLemmas LruV.B.CloneB.
 
 Definition shared_ref_op (p : op) : bool :=
   match p with
@@ -23,9 +24,30 @@ Proof. intros E VS s p o s' out evs Hs H. destruct p; try discriminate Hs; cbn [
 Theorem C19_clone_source_untouched : forall E s ren c evs, do_clone E s ren = Some (c, evs) -> e_dropped evs = [] /\ e_evicted evs = [].
 Proof. intros E s ren c evs H. unfold do_clone in H. destruct (t_alloc E (capacity (tb s)) true); try discriminate. injection H as <- <-. auto. Qed.
 
+(* (1b) at pointer level: every &self operation of the heap-of-nodes model — the lookups that scan the listed buckets, the LRU/MRU
+   peeks that read the seal's links, full or partial traversals in both directions running as cursors over the links, Debug — returns
+   with the WHOLE pointer-level state identical: the heap (every node: both links, recorded size, ownership state of the payload),
+   the seal, the list of buckets, counters and table.  No representation invariant is needed: it holds from any state in which the
+   operation returns at all. *)
+Theorem C19_pointer_level_readonly : forall E VS b p oB b' out evs,
+  shared_ref_op p = true -> stepB E VS b p oB = Some (b', out, evs) -> b' = b /\ e_dropped evs = [] /\ e_evicted evs = [].
+Proof.
+  intros E VS b p oB b' out evs Hs H. destruct p; try discriminate Hs; cbn [stepB] in H;
+    repeat (first [ match type of H with bind ?x _ = _ => destruct x as [?|]; cbn [bind] in H; [|discriminate] end
+                  | match type of H with match ?x with _ => _ end = _ => destruct x; cbn [bind] in H; try discriminate end ]);
+    injection H as <- _ <-; auto.
+Qed.
+(* clone at pointer level reads the source and builds the copy in buckets that are not the source's: the source structure is
+   still coherent and holds exactly its entries in the heap the clone returns *)
+Theorem C19_clone_pointer_level : forall E b seal_c addrs ren bc evs, RIg (bg b) -> bB_clone E b seal_c addrs ren = Some (bc, evs) ->
+  RI (gh (bg bc)) (gseal (bg b)) (glist (bg b)) /\ absl (gh (bg bc)) (glist (bg b)) = absG (bg b).
+Proof. intros E b seal_c addrs ren bc evs H Hc. destruct (clone_refines E b seal_c addrs ren bc evs H Hc) as (_ & _ & A & B & _). auto. Qed.
+
 (* (2) static: for all inputs, no write primitive is reachable from any &self operation *)
-Theorem C19_static_no_write : forall f, In f c19_roots -> forall g, Reach c19_graph f g -> has_write c19_graph g = false.
+Theorem C19_static_no_write : forall f, In f c19_roots -> forall g, GenDefs.Reach c19_graph f g -> has_write c19_graph g = false.
 Proof. exact C19_static. Qed.
 
 Print Assumptions C19_model_readonly.
 Print Assumptions C19_static_no_write.
+Print Assumptions C19_pointer_level_readonly.
+Print Assumptions C19_clone_pointer_level.
